@@ -104,10 +104,12 @@ ZE6 = E('ZE6', 'zero', [('A', 'unit', []), ('B', 'tuple', [('0', u8)]), ('C', 'n
 ZE7 = E('ZE7', 'zero', [('A', 'tuple', [('0', u32)]), ('B', 'unit', [])], reprs=['C', 'align(16)'])
 ZE8 = E('ZE8', 'zero', [('A', 'tuple', [('0', u16)]), ('B', 'unit', [])], reprs=['C', 'u64'])
 Z24 = S('Z24', 'zero', [('a', u32)], reprs=['C', 'align(128)'])
+D25 = S('D25', 'none', [('a', Pm('A')), ('b', Bx(Pm('I'))), ('c', Bx(u16)), ('d', Opt(Bx(u8)))], tparams=[TP('A'), TP('I')])
+E11 = E('E11', 'none', [('P', 'tuple', [('0', Bx(u16))]), ('Q', 'named', [('x', Pm('A')), ('y', Bx(Pm('A2')))])], tparams=[TP('A'), TP('A2')])
 PRE = S('Pre', 'none', [('pad', STR), ('v', Pm('A'))], tparams=[TP('A')])
 
 DEEP_DEFS = [D1, D2, D3, D4, D5, D6, D7, D8, D9, D10, D11, D12, D13, D14, D15, D16, D17, D18, D19, D20, D21, D22,
-             E1, E2, E3, E4, E5, E6, E7, E8, E9, PRE, Z21, Z22, D23, D24, E10, ZE6, ZE7, ZE8, Z24]
+             E1, E2, E3, E4, E5, E6, E7, E8, E9, PRE, Z21, Z22, D23, D24, E10, ZE6, ZE7, ZE8, Z24, D25, E11]
 
 DEFS = ZERO_DEFS + DEEP_DEFS
 
@@ -161,6 +163,8 @@ def user_roots():
     r += [U(Z24), Vec(U(Z24)), U(D2, [U(Z24)]), Opt(U(Z24))]
     # sequences of deep-copy items that consist of exactly one zero-copy composite
     r += [Vec(U(D22, [z1])), Arr(U(D22, [Tup(u32, 2)]), 3), Bx(U(D22, [Arr(u16, 2)])), Vec(U(D15, [z2])), Vec(U(E5)), Vec(Opt(z1)), Vec(U(D22, [Vec(z1)]))]
+    # generic definitions whose field types contain slices
+    r += [U(D25, [Vec(u32), u64]), U(D25, [STR, STR]), U(E11, [Vec(u8), U(Z1)]), U(E11, [u16, STR])]
     # alignment units that are not a power of two (size_of of a range of a 12-byte type)
     r += [Vec(Rg('RangeTo', U(Z12))), U(Z22), Vec(U(Z22)), Arr(Rg('RangeToInclusive', U(Z12)), 2)]
     return r
